@@ -183,6 +183,12 @@ def lexer_decoder(run: Run, lx: Module) -> Decoder:
                     return Decoder("single", (set(keys), mapping), n)
     if chain:
         return Decoder("chain", chain, first_node)  # type: ignore[arg-type]
+    # nothing in the branch (or in the helpers it calls) can decode anything: the value is the raw text between the quotes. That
+    # is a decoder too - the identity - and the round-trip rules judge it like any other (they report it)
+    could_decode = {"sub", "subn", "replace", "translate", "decode", "encode", "literal_eval", "loads", "unescape", "unicode_escape", "maketrans", "join", "split"}
+    called = {(c.func.attr if isinstance(c.func, ast.Attribute) else getattr(c.func, "id", "?")) for st in stmts for c in ast.walk(st) if isinstance(c, ast.Call)}
+    if not (called & could_decode) and not any(isinstance(n, (ast.For, ast.While, ast.ListComp, ast.GeneratorExp)) for st in stmts for n in ast.walk(st)):
+        return Decoder("chain", [], branch)
     raise AnalysisError("tokenize: no unescape step recognised in the STRING branch")
 
 
@@ -405,6 +411,22 @@ def check_number_lexemes(run: Run, rule: str, lm: lexmodel.LexModel) -> None:
                         fi, convs, lexvar = helper, hc, hp[idx]
                         break
     if len(convs) < 2:
+        # decided the other way when every value tokenize can give a token is visible and none of them can be a number: the
+        # Token(...) built for a pattern match takes a local whose every binding is text, a constant or a comparison
+        toks = [c for c in walk_no_nested(fi.node) if isinstance(c, ast.Call) and isinstance(c.func, ast.Name) and c.func.id == "Token" and len(c.args) >= 2 and isinstance(c.args[0], ast.Name) and c.args[0].id == "token_type" and isinstance(c.args[1], ast.Name)]
+        if len(toks) == 1:
+            vname = toks[0].args[1].id  # type: ignore[attr-defined]
+            defs = [a.value for a in walk_no_nested(fi.node) if isinstance(a, ast.Assign) and any(isinstance(t, ast.Name) and t.id == vname for t in a.targets)]
+            other = [a for a in walk_no_nested(fi.node) if isinstance(a, (ast.AugAssign, ast.AnnAssign, ast.NamedExpr)) and isinstance(a.target, ast.Name) and a.target.id == vname] + [a for a in walk_no_nested(fi.node) if isinstance(a, ast.Assign) and any(isinstance(t, (ast.Tuple, ast.List)) and any(isinstance(x, ast.Name) and x.id == vname for x in ast.walk(t)) for t in a.targets)]
+            text_calls = {"group", "strip", "lstrip", "rstrip", "lower", "upper", "sub", "replace", "str", "join"}
+
+            def textual(e: ast.AST) -> bool:
+                return not any(isinstance(c, ast.Call) and (c.func.attr if isinstance(c.func, ast.Attribute) else getattr(c.func, "id", "?")) not in text_calls for c in ast.walk(e))
+
+            if defs and not other and all(textual(d) for d in defs):
+                run.instance(rule, lx.loc(toks[0]), "tokenize: NUMBER lexemes are converted with int()/float()", ok=False)
+                run.violation(rule, lx, "tokenize", toks[0], "no binding of the value that tokenize gives a pattern match can be a number (each is text, a constant or a comparison; there is no int()/float() of the lexeme): NUMBER tokens carry their text, so 42 and \"42\" are the same value after one write-then-read")
+                return
         raise AnalysisError("tokenize: int(<lexeme>)/float(<lexeme>) conversions not found (neither inline nor in a helper receiving matched_text)")
     cfg = CFG(fi.node)
     for c in convs:
